@@ -19,10 +19,9 @@ EXHAUSTIVE = False
 ASSUMPTIONS = ["a Packet is a [188]byte value; data slices have cap = len",
                "views vs copies (aliasing) are observed by goexec only: function Payload/Header return views, method Payload a copy",
                "the model follows /root/work/repo-fixed (F6, F7 repaired, C05 guards)"]
-PARTIAL = ("SetPayload on a payload-only packet (control 01) with fewer than 184 bytes (the path that creates the adaptation field), "
-           "SetAdaptationFieldControl on its own, the function-style SetPayload of create.go, Create with arbitrary option lists and "
+PARTIAL = ("SetAdaptationFieldControl on its own, the function-style SetPayload of create.go, Create with arbitrary option lists and "
            "CreatePacketWithPayload are tied by the correspondence only (fidelity cases); the full statements are kept in "
-           "Properties/C02.v as C02_set_payload_ok_full / C02_create_packet_with_payload_full")
+           "Properties/C02.v as C02_create_packet_with_payload_full")
 
 FLAG_PCR, FLAG_OPCR, FLAG_SPLICE, FLAG_TPD, FLAG_EXT = 0x10, 0x08, 0x04, 0x02, 0x01
 
@@ -124,15 +123,9 @@ def gen(rng, tier):
                 kind = "set-empty" if ln == 0 else ("set-fill" if ln >= cap else "set-short")
                 if l["af"] == ("empty",) and 0 < ln < 183:
                     kind = "set-short-af0"      # defect F7 shape
-                # proved of the model: every packet that already has an adaptation field, and payload-only
-                # packets with filling data (C02_set_payload_ok_partial); control 01 with short data creates
-                # the field and is tied by the correspondence only
-                proved = l["af"] is not None or ln >= 184
-                if not proved:
+                if l["af"] is None and ln < 184:
                     kind += "-creates-af"
-                out.append(Case("pay.set %s %s" % (hx(p), hx(d)), kind=kind, decides=proved, nontrivial=True,
-                                theorem=("C02_set_payload_ok_partial" if ln > 0 else "C02_set_payload_empty") if proved
-                                else "C02_set_payload_ok_full (unproved part)"))
+                out.append(Case("pay.set %s %s" % (hx(p), hx(d)), kind=kind, theorem="C02_set_payload_ok" if ln > 0 else "C02_set_payload_empty"))
         for v in (1, 2, 3):
             if rng.random() < 0.5 or thorough:
                 out.append(Case("pay.set_afc %s %d" % (hx(p), v), kind="set-afc", decides=False, theorem="(no theorem: correspondence only)"))
